@@ -205,45 +205,66 @@ Definition minimal (x : nat * op) (pending : list (nat * op)) : bool :=
 Definition drop (i : nat) (pending : list (nat * op)) : list (nat * op) :=
   filter (fun y => negb (Nat.eqb (fst y) i)) pending.
 
-(* An operation that may be linearised now, whose response matches and that leaves the store as it is (a read,
-   a refused write) can be taken at once: moving it to the front of any linearisation keeps it valid. *)
+(* READS FIRST.  A read-only request that may be linearised now, whose response matches and that leaves the store as
+   it is, can be taken at once: moving it to the front of any linearisation keeps it valid -- provided it is
+   store-preserving WHEREVER it stands.  A reader changes the store only through the gate's provisioning; when the
+   history contains no request that can remove a home ([homes_stay]) a provisioning that is a no-op now stays one.
+   (A write that happens to change nothing in the current state must NOT be taken greedily.) *)
+Definition is_reader (r : request) : bool := match hmode r with Rd => true | Wr => false end.
+Definition removes_home (r : request) : bool :=
+  match r with RDelete p _ => Nat.leb (length p) 1 | _ => false end.
+Definition homes_stay (ops : list op) : bool := negb (existsb (fun o => removes_home (snd (op_req o))) ops).
+
 Fixpoint find_pure (step : store -> ureq -> store * response) (s : store) (cs : cstore)
                    (pending cands : list (nat * op)) : option nat :=
   match cands with
   | [] => None
   | x :: rest =>
-      if minimal x pending then
+      if is_reader (snd (op_req (snd x))) && minimal x pending then
         let '(s1, o) := step s (op_req (snd x)) in
         if cresp_eqb (canon o) (op_resp (snd x)) && cstore_eqb (canon_store s1) cs then Some (fst x)
         else find_pure step s cs pending rest
       else find_pure step s cs pending rest
   end.
 
-(* depth-first search with a budget of visited nodes: (found, budget left); (false, 0) = gave up *)
-Fixpoint lin_b (fuel : nat) (w : cworld) (obs_store : cstore) (s : store) (pending : list (nat * op)) (budget : N)
-  : bool * N :=
+(* states from which the search is known to fail: (pending operations, provisioned ones, canonical store) *)
+Definition memo := list (list nat * list nat * cstore).
+Fixpoint nats_eqb (a b : list nat) : bool :=
+  match a, b with [], [] => true | x :: a', y :: b' => Nat.eqb x y && nats_eqb a' b' | _, _ => false end.
+Definition seen (m : memo) (ids pr : list nat) (cs : cstore) : bool :=
+  existsb (fun e => nats_eqb (fst (fst e)) ids && nats_eqb (snd (fst e)) pr && cstore_eqb (snd e) cs) m.
+
+(* depth-first search with a budget of visited nodes and a memo of failed states:
+   (found, budget left, memo); (false, 0, _) = gave up *)
+Fixpoint lin_b (fuel : nat) (w : cworld) (greedy : bool) (obs_store : cstore) (s : store) (pending : list (nat * op))
+               (budget : N) (m : memo) : bool * N * memo :=
   match pending with
-  | [] => (cstore_eqb (canon_store s) obs_store, budget)
+  | [] => (cstore_eqb (canon_store s) obs_store, budget, m)
   | _ =>
       match fuel with
-      | O => (false, budget)
+      | O => (false, budget, m)
       | S f =>
-          match find_pure (ureq_spec w) s (canon_store s) pending pending with
-          | Some i => lin_b f w obs_store s (drop i pending) budget
+          let cs := canon_store s in
+          let ids := map fst pending in
+          if seen m ids [] cs then (false, budget, m) else
+          match (if greedy then find_pure (ureq_spec w) s cs pending pending else None) with
+          | Some i => lin_b f w greedy obs_store s (drop i pending) budget m
           | None =>
-          (fix try (cands : list (nat * op)) (budget : N) : bool * N :=
+          let '(ok, b, m') :=
+          (fix try (cands : list (nat * op)) (budget : N) (m : memo) : bool * N * memo :=
              match cands with
-             | [] => (false, budget)
+             | [] => (false, budget, m)
              | x :: rest =>
-                 if N.eqb budget 0 then (false, 0) else
+                 if N.eqb budget 0 then (false, 0, m) else
                  if minimal x pending then
                    let '(s1, o) := ureq_spec w s (op_req (snd x)) in
                    if cresp_eqb (canon o) (op_resp (snd x)) then
-                     let '(ok, b') := lin_b f w obs_store s1 (drop (fst x) pending) (N.pred budget) in
-                     if ok then (true, b') else try rest b'
-                   else try rest budget
-                 else try rest budget
-             end) pending budget
+                     let '(ok, b', m') := lin_b f w greedy obs_store s1 (drop (fst x) pending) (N.pred budget) m in
+                     if ok then (true, b', m') else try rest b' m'
+                   else try rest budget m
+                 else try rest budget m
+             end) pending budget m in
+          if ok then (true, b, m') else (false, b, if N.eqb b 0 then m' else (ids, [], cs) :: m')
           end
       end
   end.
@@ -258,38 +279,45 @@ Definition ureq_prov (w : cworld) (s : store) (ir : ureq) : store :=
   let '(u, pol) := nth_user (cw_world w) (fst ir) in prov_spec (cw_pre w) pol u s.
 
 Fixpoint lin_s (fuel : nat) (w : cworld) (obs_store : cstore) (s : store) (pending : list (nat * op))
-               (proved : list nat) (budget : N) : bool * N :=
+               (proved : list nat) (budget : N) (m : memo) : bool * N * memo :=
   match pending with
-  | [] => (cstore_eqb (canon_store s) obs_store, budget)
+  | [] => (cstore_eqb (canon_store s) obs_store, budget, m)
   | _ =>
       match fuel with
-      | O => (false, budget)
+      | O => (false, budget, m)
       | S f =>
-          match find_pure (ureq_body w) s (canon_store s) pending pending with
-          | Some i => lin_s f w obs_store s (drop i pending) proved budget
+          let cs := canon_store s in
+          let ids := map fst pending in
+          if seen m ids proved cs then (false, budget, m) else
+          (* the handler section of a reader never changes the store: always safe to take first *)
+          match find_pure (ureq_body w) s cs pending pending with
+          | Some i => lin_s f w obs_store s (drop i pending) proved budget m
           | None =>
-          (fix try (cands : list (nat * op)) (budget : N) : bool * N :=
+          let '(ok, b, m') :=
+          (fix try (cands : list (nat * op)) (budget : N) (m : memo) : bool * N * memo :=
              match cands with
-             | [] => (false, budget)
+             | [] => (false, budget, m)
              | x :: rest =>
-                 if N.eqb budget 0 then (false, 0) else
+                 if N.eqb budget 0 then (false, 0, m) else
                  if minimal x pending then
                    (* the handler section of x, on the store as it is *)
                    let '(s1, o) := ureq_body w s (op_req (snd x)) in
-                   let '(ok1, b1) :=
+                   let '(ok1, b1, m1) :=
                      if cresp_eqb (canon o) (op_resp (snd x))
-                     then lin_s f w obs_store s1 (drop (fst x) pending) proved (N.pred budget)
-                     else (false, budget) in
-                   if ok1 then (true, b1) else
+                     then lin_s f w obs_store s1 (drop (fst x) pending) proved (N.pred budget) m
+                     else (false, budget, m) in
+                   if ok1 then (true, b1, m1) else
                    (* or the provisioning section of x, if it has not run yet and changes something *)
                    let s2 := ureq_prov w s (op_req (snd x)) in
-                   let '(ok2, b2) :=
-                     if negb (existsb (Nat.eqb (fst x)) proved) && negb (cstore_eqb (canon_store s2) (canon_store s))
-                     then (if N.eqb b1 0 then (false, 0) else lin_s f w obs_store s2 pending (fst x :: proved) (N.pred b1))
-                     else (false, b1) in
-                   if ok2 then (true, b2) else try rest b2
-                 else try rest budget
-             end) pending budget
+                   let '(ok2, b2, m2) :=
+                     if negb (existsb (Nat.eqb (fst x)) proved) && negb (cstore_eqb (canon_store s2) cs)
+                     then (if N.eqb b1 0 then (false, 0, m1)
+                           else lin_s f w obs_store s2 pending (fst x :: proved) (N.pred b1) m1)
+                     else (false, b1, m1) in
+                   if ok2 then (true, b2, m2) else try rest b2 m2
+                 else try rest budget m
+             end) pending budget m in
+          if ok then (true, b, m') else (false, b, if N.eqb b 0 then m' else (ids, proved, cs) :: m')
           end
       end
   end.
@@ -300,7 +328,7 @@ Fixpoint lin_s (fuel : nat) (w : cworld) (obs_store : cstore) (s : store) (pendi
 Definition lin_verdict (w : cworld) (setup : list ureq) (ops : list op) (obs_store : cstore) (budget : N) : N :=
   let s0 := fst (run_spec w empty_store setup) in
   let pending := index_from 0 ops in
-  let '(ok, b) := lin_b (S (length ops)) w obs_store s0 pending budget in
+  let '(ok, b, _) := lin_b (S (length ops)) w (homes_stay ops) obs_store s0 pending budget [] in
   if ok then 0 else
-  let '(ok2, b2) := lin_s (2 * length ops + 1) w obs_store s0 pending [] budget in
+  let '(ok2, b2, _) := lin_s (2 * length ops + 1) w obs_store s0 pending [] budget [] in
   if ok2 then 1 else if N.eqb b 0 || N.eqb b2 0 then 3 else 2.
